@@ -36,7 +36,7 @@ ASSUMPTIONS = [
     "weights are dyadic; multisets of at most N entries",
 ]
 BOUNDS = {
-    "quick": "1D: multisets<=2, K=4, 10 widths x 4 modes x 3 starts; 2D: multisets<=2 (K=2); 3D: multisets<=1; derived binnings: tuples<=3",
+    "quick": "1D: multisets<=2, K=3 (+ rounding-sensitive grid points), 10 widths x 4 modes x 3 starts; 2D: multisets<=2 (K=2); 3D: multisets<=1; derived binnings: tuples<=3",
     "thorough": "1D: multisets<=3 (K=6 for <=2, K=2 for 3), 2D multisets<=2 (K=4), 3D multisets<=2",
 }
 BUDGET = {"quick": 240, "thorough": 3000}
@@ -480,7 +480,7 @@ def derived_eval(case):
 def units(tier, seed):
     thorough = tier == "thorough"
     us = []
-    K1 = 6 if thorough else 4
+    K1 = 6 if thorough else 3
     for w in WIDTHS:
         for mode in ("shift0", "half", "noalign"):
             for start in ("empty", "presized", "prefilled"):
